@@ -2,7 +2,7 @@
    Property theorems only; proofs live in proofs/GcView.v (Section GV2b: region invariant GC2, prefix invariant GP;
    Section GV3: gc_pass_reclaims). *)
 From Coq Require Import NArith ZArith List Bool String.
-From GB Require Import Consts Words Hash Compress Bucket BucketOpen Gc CheckL2 RefMap Refine CollideProofs GcView.
+From GB Require Import Consts Words Hash Compress Bucket BucketOpen Gc CheckL2 RefMap Refine CollideProofs GcView GcMerge.
 Import ListNotations.
 Open Scope N_scope.
 
@@ -82,6 +82,39 @@ Theorem C18_second_pass_releases_nothing : forall (cf : cfg) (hf : bytes -> N) (
   g_released gs = 0 /\ g_size_released gs = 0.
 Proof. exact gc_pass_twice. Qed.
 Print Assumptions C18_second_pass_releases_nothing.
+
+(* (3c) WITH OR WITHOUT HINT MERGE ((1), (2) and (3b) for either flag; see C03_gc_preserves_reads_any_merge for why the
+   merge changes nothing the pass depends on) *)
+Theorem C18_range_files_any_merge : forall (cf : cfg) (hf : bytes -> N) (K : list bytes),
+  (forall k1 k2, In k1 K -> In k2 K -> hf k1 = hf k2 -> k1 = k2) -> 0 < c_splitcap cf ->
+  forall b m begin_ end_ merge,
+  Rel hf K b m -> GPre cf hf K b -> (begin_ <= end_ < b_head b)%nat ->
+  let b' := fst (gc_pass cf hf b begin_ end_ merge) in
+  forall c e, (begin_ <= c <= end_)%nat -> In e (k_disk (chunk_at b' c)) ->
+    cur_or_tomb hf begin_ b' c e /\ find_off (k_disk (chunk_at b' c)) (fst e) = Some (snd e).
+Proof. exact gc_pass_range_files_any. Qed.
+Print Assumptions C18_range_files_any_merge.
+
+Theorem C18_each_indexed_key_once_any_merge : forall (cf : cfg) (hf : bytes -> N) (K : list bytes),
+  (forall k1 k2, In k1 K -> In k2 K -> hf k1 = hf k2 -> k1 = k2) -> 0 < c_splitcap cf ->
+  forall b m begin_ end_ merge,
+  Rel hf K b m -> GPre cf hf K b -> (begin_ <= end_ < b_head b)%nat ->
+  let b' := fst (gc_pass cf hf b begin_ end_ merge) in
+  forall c1 e1 c2 e2, (begin_ <= c1 <= end_)%nat -> (begin_ <= c2 <= end_)%nat ->
+    In e1 (k_disk (chunk_at b' c1)) -> In e2 (k_disk (chunk_at b' c2)) -> d_key (snd e1) = d_key (snd e2) ->
+    tree_get_slot b' (hf (d_key (snd e1))) <> None -> c1 = c2 /\ e1 = e2.
+Proof. exact gc_pass_range_once_any. Qed.
+Print Assumptions C18_each_indexed_key_once_any_merge.
+
+Theorem C18_second_pass_releases_nothing_any_merge : forall (cf : cfg) (hf : bytes -> N) (K : list bytes),
+  (forall k1 k2, In k1 K -> In k2 K -> hf k1 = hf k2 -> k1 = k2) -> 0 < c_splitcap cf ->
+  forall b m begin_ end_ m1 m2,
+  Rel hf K b m -> GPre cf hf K b -> (begin_ <= end_ < b_head b)%nat ->
+  let b' := fst (gc_pass cf hf b begin_ end_ m1) in
+  let gs := snd (gc_pass cf hf b' begin_ end_ m2) in
+  g_released gs = 0 /\ g_size_released gs = 0.
+Proof. exact gc_pass_twice_any. Qed.
+Print Assumptions C18_second_pass_releases_nothing_any_merge.
 
 (* (4) the clause "each exactly once" is REFUTED for forgotten tombstones (known finding F11): after a restart
    with the tree rebuilt (tombstones are not re-inserted) a pass with begin > 0 keeps EVERY tombstone it meets
